@@ -9,8 +9,8 @@ from sim.ctx import RunCtx, make_scheduler, gen_sched
 from sim import shrink as shr
 
 PROP = 'C15'
-QUICK_RUNS = 12000
-THOROUGH_RUNS = 200000
+QUICK_RUNS = 25000
+THOROUGH_RUNS = 500000
 QUICK_WALL = 100
 THOROUGH_WALL = 1500
 CHUNK = 50
@@ -56,11 +56,13 @@ def gen_case(rng, tier, idx):
 
 
 def execute(case, script=None):
+    import random as _r
+    _r.seed(f"global:{case.get('verif_seed')}:{case.get('index')}")
     view = MDPView(case['spec'])
     ctx = RunCtx(PROP, view)
     ctx.declare_probes('option_raised_must', 'option_returned_must', 'boundary_raised', 'start_terminal',
                        'smdp_call_raised', 'smdp_dist_checked', 'primitive_checked', 'static_override_sets', 'plan_option',
-                       'subtask_plan_checked', 'f7_before', 'f7_boundary', 'f7_after')
+                       'subtask_plan_checked', 'f7_before', 'f7_boundary', 'f7_after', 'cross_call_checked')
     sched = make_scheduler(case, script, ctx)
     try:
         return _execute(view, case['cfg'], ctx, sched)
@@ -297,6 +299,37 @@ def _execute(view, cfg, ctx, sched):
         ctx.probe('primitive_checked')
         ctx.check(set(got) == set(ref) and all(close(got[k], ref[k]) for k in ref), 'semimdp-primitive',
                   lambda: f"primitive action ({start},{a}): {got}, expected one-step outcomes with duration 1: {ref}")
+    # ------------------------------------------------------------ cross-call consistency (genuine streams)
+    # With the real Mersenne-Twister streams the simulations of (state, option) are a function of the semi-MDP's
+    # seed (fixed at first use when none is given), so the outcome distribution of one call must be the empirical
+    # distribution of run_simulations() called separately, and the derived methods its marginals / expectation.
+    for seed_ in (cfg['seed'], None):
+        smdp2 = sm.SemiMarkovDecisionProcess(mdp=mdp, options=[o], n_option_simulations=nsim, seed=seed_)
+        fproxy = RandomProxy(sched, faithful=True)
+        with patched_random([sm], fproxy):
+            try:
+                d = smdp2.next_state_transit_time_reward_dist(sk[start], o)
+                sims = smdp2.run_simulations(sk[start], o)
+                d_t = smdp2.next_state_transit_time_dist(sk[start], o)
+                d_n = smdp2.next_state_dist(sk[start], o)
+                e_r = smdp2.expected_cumulative_reward(sk[start], o)
+            except AlgorithmException:
+                continue
+            except (Violation, Inconclusive):
+                raise
+            except Exception as e:
+                raise Violation('exception', f"semi-MDP (seed={seed_}) raised {type(e).__name__}: {e}")
+        ctx.probe('cross_call_checked')
+        outs = []
+        for sim in sims:
+            rows = [(sid[x['state']], aid[x['action']], sid[x['next_state']], x['reward']) for x in sim.steps[:-1]]
+            outs.append((sid[sim.steps[-1]['state']], len(rows), sum(r * g ** t for t, (_, _, _, r) in enumerate(rows)), 'ok'))
+        tag = f"semi-MDP(seed={seed_})"
+        match(d, empirical(outs, lambda e, n, G: (e, n, G)), tag + ': outcome distribution vs run_simulations()', True)
+        match(d_t, empirical(outs, lambda e, n, G: (e, n)), tag + ': next_state_transit_time_dist vs run_simulations()', False)
+        match(d_n, empirical(outs, lambda e, n, G: (e,)), tag + ': next_state_dist vs run_simulations()', False)
+        ref = sum(G for (e, n, G, _) in outs) / nsim
+        ctx.check(close(float(e_r), ref, 1e-9, 1e-9), 'semimdp-empirical', lambda: f"{tag}: expected_cumulative_reward {float(e_r)!r} != mean over run_simulations() {ref!r}")
     return ctx.result()
 
 
